@@ -541,6 +541,7 @@ func maxInt(a, b int) int {
 // the input, computes and sends the chunks.
 func verifLazyTransform(ctx context.Context, n *nodeRT, ctl *RunCtl, e *Exec, p *Producer, in *schema.StreamReader[V], sw *schema.StreamWriter[V]) {
 	defer sw.Close()
+	defer recoverReader(ctl, e, p, sw)
 	v, err := drainV(in)
 	if err != nil {
 		ctl.Log.finish(e, "", err)
@@ -574,6 +575,19 @@ func verifLazyTransform(ctx context.Context, n *nodeRT, ctl *RunCtl, e *Exec, p 
 	ctl.Log.updProducer(func() { p.Finished = true })
 }
 
+// recoverReader: a goroutine started by a node body is the node's own business. Reading the input
+// stream can panic there (a predecessor's converter panics inside Recv when nothing of the framework
+// sits in between); a well-behaved body hands such a panic on as an error item instead of killing the
+// process.
+func recoverReader(ctl *RunCtl, e *Exec, p *Producer, sw *schema.StreamWriter[V]) {
+	if r := recover(); r != nil {
+		err := fmt.Errorf("verif: reading the input stream panicked in a goroutine of the node body: %v", r)
+		ctl.Log.finish(e, "", err)
+		sw.Send(nil, err)
+		ctl.Log.updProducer(func() { p.Finished = true })
+	}
+}
+
 // lazyRename forwards chunk by chunk (a truly streaming transform).
 func (n *nodeRT) lazyRename(ctx context.Context, ctl *RunCtl, e *Exec, in *schema.StreamReader[V]) *schema.StreamReader[V] {
 	sr, sw := schema.Pipe[V](maxInt(n.spec.PipeCap, 0))
@@ -586,6 +600,7 @@ func (n *nodeRT) lazyRename(ctx context.Context, ctl *RunCtl, e *Exec, in *schem
 func verifRenameForward(ctx context.Context, n *nodeRT, ctl *RunCtl, e *Exec, p *Producer, in *schema.StreamReader[V], sw *schema.StreamWriter[V]) {
 	defer sw.Close()
 	defer in.Close()
+	defer recoverReader(ctl, e, p, sw)
 	var seen []V
 	first := true
 	for {
